@@ -9,12 +9,17 @@ import (
 	"fmt"
 	"os"
 	"path/filepath"
+	"runtime"
 	"strings"
 	"time"
 
 	"github.com/jhalter/mobius/hotline"
 	"github.com/jhalter/mobius/internal/mobius"
 )
+
+// All file system calls of the update are made by the main goroutine; pinning it to the main thread
+// lets strace (which counts system calls per thread) address "the j-th call" deterministically.
+func init() { runtime.LockOSThread() }
 
 func main() {
 	dir, op := os.Args[1], os.Args[2]
@@ -41,14 +46,32 @@ func Apply(dir, op string) error {
 			return err
 		}
 		fmt.Fprintln(os.Stderr, "MARK")
+		have := false
+		for _, c := range s.GetCategories(nil) {
+			if c.Name == p[1] {
+				have = true
+			}
+		}
 		switch p[0] {
 		case "newsgrp":
+			if have {
+				return fmt.Errorf("exists")
+			}
 			return s.CreateGrouping(nil, p[1], hotline.NewsCategory)
 		case "newspost":
+			if !have {
+				return fmt.Errorf("no such category")
+			}
 			return s.PostArticle([]string{p[1]}, 0, hotline.NewsArtData{Title: p[2], Poster: "p", Data: "body " + p[2]})
 		case "newsdelart":
+			if s.GetArticle([]string{p[1]}, 1) == nil {
+				return fmt.Errorf("no such article")
+			}
 			return s.DeleteArticle([]string{p[1]}, 1, false)
 		default:
+			if !have {
+				return fmt.Errorf("no such item")
+			}
 			return s.DeleteNewsItem([]string{p[1]})
 		}
 	case "acctnew", "acctmod", "acctren", "acctdel":
@@ -59,6 +82,9 @@ func Apply(dir, op string) error {
 		fmt.Fprintln(os.Stderr, "MARK")
 		switch p[0] {
 		case "acctnew":
+			if s.Get(p[1]) != nil {
+				return fmt.Errorf("exists")
+			}
 			return s.Create(*hotline.NewAccount(p[1], "N-"+p[1], "pw", hotline.AccessBitmap{}))
 		case "acctmod":
 			a := s.Get(p[1])
@@ -69,11 +95,14 @@ func Apply(dir, op string) error {
 			return s.Update(*a, a.Login)
 		case "acctren":
 			a := s.Get(p[1])
-			if a == nil {
-				return fmt.Errorf("no such account")
+			if a == nil || s.Get(p[2]) != nil {
+				return fmt.Errorf("no such account / target exists")
 			}
 			return s.Update(*a, p[2])
 		default:
+			if s.Get(p[1]) == nil {
+				return fmt.Errorf("no such account")
+			}
 			return s.Delete(p[1])
 		}
 	case "ban":
